@@ -511,9 +511,12 @@ def cholesky_band(l, mininf=0.0):
             lower[0, j] = np.sqrt(lower[0, j])
             lower[spot, j] /= lower[0, j]
             x = lower[spot, j]
-            if not np.all(np.isfinite(x)):
+            if not (lower[0, j] > 0 and np.all(np.isfinite(x))):
                 warn('NaN found in cholesky_band.', PydlutilsUserWarning)
                 return (j, l)
+            for i in range(kn):
+                lower[0:kn-i, j+1+i] -= x[i]*x[i:]
+        lower = lower[:, 0:n]
     #
     # Restore padding.
     #
